@@ -36,6 +36,10 @@ func (t *tr) loopsGlobal(name string) *val {
 	}
 	var v *val
 	init := t.p.varDecl(name)
+	if init != nil && t.p.assignedInit[name] {
+		// (only variables WITHOUT initialiser are taken to be set by init)
+		t.fail("package-level variable %s has an initialiser and is changed by init(): it cannot be read as a constant", k)
+	}
 	switch {
 	case k == "poseidon.c":
 		// var c *constants, filled by init() from the tables of constants.go: the
@@ -224,6 +228,9 @@ func (t *tr) keccakMethod(recv *val, m string, ce *ast.CallExpr) callRes {
 		if b.t.k != kSlice {
 			t.fail("Sum with an argument of type %s", b.t)
 		}
+		if b.spare || b.c != nil { // (Sum appends in place when there is room)
+			t.fail("Sum(b) may write into the storage behind b")
+		}
 		return callRes{vals: []*val{{t: tSlice, e: par(t.bytesOf(b)) + " ++ KeccakStream.ksum " + par(t.read(recv.c))}}}
 	}
 	t.fail("unsupported sha3 method %s", m)
@@ -247,12 +254,12 @@ func (t *tr) sliceLoops(e *ast.SliceExpr, x *val) *val {
 	case lo == nil && hi == nil:
 		return &val{t: tSlice, e: t.bytesOf(x)}
 	case hi == nil:
-		return &val{t: tSlice, e: "skipn " + par(t.natIndex(lo)) + " " + b}
+		return &val{t: tSlice, e: "skipn " + par(t.natIndex(lo)) + " " + b, spare: x.spare}
 	case lo == nil:
-		return &val{t: tSlice, e: "firstn " + par(t.natIndex(hi)) + " " + b}
+		return &val{t: tSlice, e: "firstn " + par(t.natIndex(hi)) + " " + b, spare: true}
 	}
 	n := t.intArith(token.SUB, hi, lo, e)
-	return &val{t: tSlice, e: "firstn " + par(t.natIndex(n)) + " (skipn " + par(t.natIndex(lo)) + " " + b + ")"}
+	return &val{t: tSlice, e: "firstn " + par(t.natIndex(n)) + " (skipn " + par(t.natIndex(lo)) + " " + b + ")", spare: true}
 }
 
 // modOf: the modulus of a field element type.
